@@ -277,7 +277,7 @@ def confirm(check, r):
         if not (cyc > 0 and cyc < 1e6): cyc = 1.0 + k
         dly = bits2f32(mv.get(f'delay_{k}', 0));
         if not (0 <= dly < 1e6): dly = 0.0
-        comps.append('%08x;%08x;%s;false;%d%d' % (f32bits(cyc), f32bits(dly), 'none' if rd == 0 else ('inf' if rd == 2 else str(min(nn, 1000))), masks[k][0], masks[k][1]))
+        comps.append('%08x;%08x;%s;false;%d%d' % (f32bits(cyc), f32bits(dly), 'none' if rd == 0 else ('inf' if rd == 2 else str(nn)), masks[k][0], masks[k][1]))
     cases = [{'kind': 'merged', 'comps': comps, 'time': '%08x' % f32bits(t)} for t in (0.4, 1.7, 3.1)]
     for case, nat in zip(cases, run_replay(cases, 'dev', 'replay_tl')):
         if nat.get('mismatch'):
